@@ -15,6 +15,8 @@ setup)
   ;;
 run)
   patch="$3"; label="$4"; shift 4
+  # a seed made against an older HEAD may have been ported by hand to the current one
+  [ -f "${patch%.diff}.ported.diff" ] && patch="${patch%.diff}.ported.diff"
   # always test against the current HEAD of /repo (fix commits may have landed since the lane was set up)
   git -C "$L/repo" checkout -q -- . ; git -C "$L/repo" checkout -q --detach "$(git -C /repo rev-parse HEAD)"
   git -C "$L/repo" apply "$patch" || git -C "$L/repo" apply --3way "$patch" || { echo "$label: patch does not apply"; git -C "$L/repo" checkout -q -- .; exit 2; }
